@@ -1245,4 +1245,174 @@ theorem C14_node_scan_request (n : Node) (hon : n.power = .on) :
     (n.apply .osScan).scanCd = max n.scanDur 1 := by
   rw [apply_scanCd]; simp [hon]
 
+
+/-! ## 7. the shadow record: along every trace, visible = "actual value at the last completed scan" -/
+
+theorem zipWith_map_self {α β γ : Type} (l : List α) (f : α → β → γ) (g : α → β) :
+    List.zipWith f l (l.map g) = l.map (fun a => f a (g a)) := by
+  induction l with
+  | nil => rfl
+  | cons a l ih => simp [ih]
+
+/-- one step of the ghost record for software: overwritten exactly when a scan covering the item completes -/
+def swShadowStep (n : Node) (op : Op) (sh : List SwH) : List SwH :=
+  List.zipWith (fun x h => if swScanCompletes n op (swMoment n op x) then (swMoment n op x).actual else h) n.sws sh
+
+/-- the ghost record along a trace -/
+def swShadow (n : Node) : List Op → List SwH → List SwH
+  | [], sh => sh
+  | op :: ops, sh => swShadow (n.apply op) ops (swShadowStep n op sh)
+
+/-- **C14 (software, all traces).** For every state and every operation sequence, the visible health of every
+software item equals the shadow record "its actual health at the moment of the last scan that covered it" (and its
+initial visible value if none did). -/
+theorem C14_sw_visible_eq_shadow (ops : List Op) : ∀ n : Node,
+    (n.run ops).sws.map (·.visible) = swShadow n ops (n.sws.map (·.visible)) := by
+  induction ops with
+  | nil => intro n; rfl
+  | cons op ops ih =>
+    intro n
+    simp only [Node.run, swShadow]
+    rw [ih (n.apply op)]
+    congr 1
+    rw [apply_sws, List.map_map, swShadowStep, zipWith_map_self]
+    apply List.map_congr_left
+    intro x _
+    exact swEff_visible n op x
+
+/-- one step of the ghost record for files (per folder, per file) -/
+def fileShadowStep (n : Node) (op : Op) (sh : List (List FsH)) : List (List FsH) :=
+  List.zipWith (fun G hs => List.zipWith (fun f h => if fileScanCompletes n op G f then f.actual else h) G.files hs)
+    n.folders sh
+
+def fileShadow (n : Node) : List Op → List (List FsH) → List (List FsH)
+  | [], sh => sh
+  | op :: ops, sh => fileShadow (n.apply op) ops (fileShadowStep n op sh)
+
+/-- **C14 (files, all traces).** Same for every file of every folder. -/
+theorem C14_file_visible_eq_shadow (ops : List Op) : ∀ n : Node,
+    (n.run ops).folders.map (fun G => G.files.map (·.visible)) =
+      fileShadow n ops (n.folders.map (fun G => G.files.map (·.visible))) := by
+  induction ops with
+  | nil => intro n; rfl
+  | cons op ops ih =>
+    intro n
+    simp only [Node.run, fileShadow]
+    rw [ih (n.apply op)]
+    congr 1
+    rw [apply_folders, List.map_map, fileShadowStep, zipWith_map_self]
+    apply List.map_congr_left
+    intro G _
+    simp only [Function.comp_def]
+    rw [folderEff_files, List.map_map, zipWith_map_self]
+    apply List.map_congr_left
+    intro f _
+    exact fileEff_visible n op G f
+
+/-! ## 8. end-to-end corollaries: request, then exactly `max(1, d)` timesteps -/
+
+/-- **C14 fix timing.** After an accepted `fix` request on the `i`-th item, for every continuation that does not hit
+the item from outside: it is still FIXING while fewer than `max(1, fixing_duration)` timesteps have reached it, and
+the `max(1, fixing_duration)`-th such timestep makes it GOOD. -/
+theorem C14_fix_exact (n : Node) (k : Bool) (i : Nat) (x : Sw) (ops : List Op)
+    (hx : n.sws[i]? = some x) (hon : n.power = .on) (hk : x.isApp = k) (hr : x.op = .running) (hc : x.canFix = true)
+    (hq : ∀ op ∈ ops, touchesSw x.name op = false) :
+    let n1 := n.apply (.sw k x.name .fix)
+    ((effTicks n1 ops : Int) < max 1 x.fixDur →
+      ∃ x', (n1.run ops).sws[i]? = some x' ∧ x'.actual = .fixing) ∧
+    ((effTicks n1 ops : Int) + 1 = max 1 x.fixDur → effTick (n1.run ops) .tick = true →
+      ∃ x', ((n1.run ops).apply .tick).sws[i]? = some x' ∧ x'.actual = .good) := by
+  obtain ⟨x1, h1, h2, h3⟩ := C14_fix_request n k i x hx hon hk hr hc
+  have hq1 : ∀ op ∈ ops, touchesSw x1.name op = false := by intro o ho; rw [h2]; exact hq o ho
+  refine ⟨fun hlt => ?_, fun heq ht => ?_⟩
+  · obtain ⟨x', g1, _, g3⟩ := C14_fix_not_early ops _ i x1 x.fixDur h1 h3 hq1 hlt
+    exact ⟨x', g1, g3.1⟩
+  · obtain ⟨x', g1, _, g3⟩ := C14_fix_completes_on_time ops _ i x1 x.fixDur h1 h3 hq1 heq ht
+    exact ⟨x', g1, g3⟩
+
+/-- **C14 folder scan timing.** After a `scan` request on an idle live folder of a powered-on node, for EVERY
+continuation: the scan completes at exactly the `max(1, scan_duration)`-th timestep that reaches the folder
+(duration 0 included — F-24 repaired). -/
+theorem C14_folder_scan_exact (n : Node) (j : Nat) (G : Folder) (ops : List Op)
+    (hG : n.folders[j]? = some G) (hon : n.power = .on) (hl : G.deleted = false) (hidle : G.scanCd ≤ 0)
+    (hk : (effFolderTicks (n.apply (.folder G.name .scan)) j ops : Int) + 1 = max G.scanDur 1) :
+    let n1 := (n.apply (.folder G.name .scan)).run ops
+    ∃ G', n1.folders[j]? = some G' ∧ G'.scanCd = 1 ∧
+      (folderTicking n1 .tick G' = true →
+        ∃ G'', (n1.apply .tick).folders[j]? = some G'' ∧ G''.scanCd = 0 ∧ G''.visible = worstLive G'.files ∧
+          G''.files.map (·.visible) = G'.files.map (fun f => if f.deleted then f.visible else f.actual)) := by
+  have h0 : (n.apply (.folder G.name .scan)).folders[j]? = some (folderEff n (.folder G.name .scan) G) := by
+    rw [apply_folders, List.getElem?_map, hG]; rfl
+  have hcd : (folderEff n (.folder G.name .scan) G).scanCd = max G.scanDur 1 := by
+    rw [C14_folder_scan_request]; simp [hon, hl, hidle]
+  obtain ⟨G', g1, g2, g3⟩ := C14_folder_scan_completes_on_time ops _ j _ _ h0 hcd hk
+  exact ⟨G', g1, g2, fun ht => by
+    obtain ⟨G'', a, _, b, c, d⟩ := g3 ht
+    exact ⟨G'', a, b, c, d⟩⟩
+
+/-- **C14 node scan timing.** After an accepted `os scan` request, for every continuation without a new `os scan`
+request: the fan-out happens at exactly the `max(1, node_scan_duration)`-th timestep that reaches the node's items. -/
+theorem C14_node_scan_exact (n : Node) (ops : List Op) (hon : n.power = .on) (hq : ∀ op ∈ ops, op ≠ .osScan) :
+    let n1 := n.apply .osScan
+    ((effTicks n1 ops : Int) < max n.scanDur 1 → (n1.run ops).scanCd = max n.scanDur 1 - effTicks n1 ops) ∧
+    ((effTicks n1 ops : Int) + 1 = max n.scanDur 1 → effTick (n1.run ops) .tick = true →
+      (n1.run ops).powerPhase.scanFires = true ∧ ((n1.run ops).apply .tick).scanCd = 0) := by
+  have h := C14_node_scan_request n hon
+  refine ⟨fun hlt => C14_node_scan_not_early ops _ _ h hq hlt, fun heq ht => ?_⟩
+  have := C14_node_scan_completes_on_time ops _ _ h hq heq ht
+  exact ⟨this.2.1, this.2.2⟩
+
+/-! ## 9. non-vacuity and concrete interleavings (evaluated by the kernel on the model) -/
+
+/-- a small node: one COMPROMISED running service (fix 2), one closed application, one folder (scan 0, restore 2)
+with a CORRUPT live file and a GOOD deleted file; node scan duration 0; shut-down 1, start-up 1. -/
+def exDns : Sw :=
+  { name := "dns", isApp := false, op := .running, actual := .compromised, visible := .unused, fixDur := 2,
+    fixCd := none, auxDur := 5, auxCd := none }
+def exNode : Node :=
+  { power := .on, startDur := 1, startCd := 0, shutDur := 1, shutCd := 0, resetting := false, scanDur := 0, scanCd := 0,
+    sws := [exDns,
+            { name := "browser", isApp := true, op := .closed, actual := .unused, visible := .unused, fixDur := 0,
+              fixCd := none, auxDur := 2, auxCd := none }],
+    folders := [{ name := "d", deleted := false, actual := .good, visible := .none, scanDur := 0, scanCd := 0,
+                  restoreDur := 2, restoreCd := 0,
+                  files := [{ name := "a", actual := .corrupt, visible := .none, deleted := false },
+                            { name := "b", actual := .good, visible := .none, deleted := true }] }] }
+
+example : exNode.wf = true := by decide
+/-- hypotheses of `C14_fix_exact` are satisfiable -/
+example : exNode.sws[0]? = some exDns ∧ exNode.power = .on ∧ exDns.op = .running ∧ exDns.canFix = true := by decide
+/-- a scan request completes a scan of its item, and of nothing else -/
+example : (exNode.sws.map (swScanCompletes exNode (.sw false "dns" .scan))) = [true, false] := by decide
+/-- fix with duration 2, a second compromise after one tick, a new fix: two more ticks — FIXING, COMPROMISED,
+FIXING, FIXING, GOOD -/
+example :
+    ([[Op.sw false "dns" .fix, .tick], [.sw false "dns" .fix, .tick, .sw false "dns" .compromise, .tick],
+      [.sw false "dns" .fix, .tick, .sw false "dns" .compromise, .tick, .sw false "dns" .fix, .tick],
+      [.sw false "dns" .fix, .tick, .sw false "dns" .compromise, .tick, .sw false "dns" .fix, .tick, .tick]].map
+        (fun ops => ((exNode.run ops).sws.map (·.actual)).take 1)) = [[.fixing], [.compromised], [.fixing], [.good]] := by
+  decide
+/-- power loss in the middle of a fix: the countdown freezes while the node is not ON (shut-down 1, start-up 1:
+the node is ON again — and ticks its items — in the 2nd timestep after `startup`) -/
+example :
+    ((exNode.run [.sw false "dns" .fix, .tick, .shutdown, .tick, .tick, .tick, .startup, .tick]).sws.map
+        (fun x => (x.actual, x.fixCd))).take 1 = [(.fixing, some 1)] ∧
+    ((exNode.run [.sw false "dns" .fix, .tick, .shutdown, .tick, .tick, .tick, .startup, .tick, .tick]).sws.map
+        (fun x => (x.actual, x.fixCd))).take 1 = [(.good, none)] := by decide
+/-- durations 0 (folder scan, node scan): complete at the next timestep; the deleted file is not scanned; the
+application (closed, never run) is scanned by the node scan all the same -/
+example :
+    (exNode.run [.folder "d" .scan, .tick]).folders.map (fun G => (G.visible, G.files.map (·.visible))) =
+      [(.corrupt, [.corrupt, .none])] ∧
+    (exNode.run [.osScan, .tick]).sws.map (·.visible) = [.compromised, .unused] ∧
+    (exNode.run [.osScan, .tick]).folders.map (fun G => (G.visible, G.files.map (·.visible))) =
+      [(.corrupt, [.corrupt, .none])] := by decide
+/-- nothing but a scan moves a visible value: compromise, fix, corrupt, repair, restore, delete, power events, ticks
+without a completing scan -/
+example :
+    let n := exNode.run [.sw false "dns" .fix, .file "d" "a" .repair, .folder "d" .corrupt, .fsDeleteFile "d" "a",
+      .fsRestoreFile "d" "a", .folder "d" .restore, .tick, .tick, .tick, .shutdown, .tick, .tick, .startup, .tick, .tick]
+    (n.sws.map (·.visible), n.folders.map (fun G => (G.visible, G.files.map (·.visible)))) =
+      ([.unused, .unused], [(.none, [.none, .none])]) := by decide
+
 end Primaite.Health
